@@ -68,8 +68,12 @@ impl RangeSet {
 impl VarInt {
     pub const unsafe fn from_u64_unchecked(x: u64) -> (r: Self) ensures r.0 == x { Self(x) }
     #[verifier::external_body]
-    pub const fn size(self) -> (r: usize) requires self.0 < 0x4000_0000_0000_0000 ensures r == 1 || r == 2 || r == 4 || r == 8 { unimplemented!() }
+    pub const fn size(self) -> (r: usize) requires self.0 < 0x4000_0000_0000_0000 ensures r == vsize(self.0) { unimplemented!() }
 }
+/// bytes a QUIC varint takes (VarInt::size; its real body is under contract in unit frame_codec)
+pub open spec fn vsize(x: u64) -> usize { if x < 0x40 { 1 } else if x < 0x4000 { 2 } else if x < 0x4000_0000 { 4 } else { 8 } }
+/// bytes the offset field of a STREAM frame takes (omitted for offset 0)
+pub open spec fn osize(start: u64) -> usize { if start != 0 { vsize(start) } else { 0 } }
 }
 pub mod spec {
 use super::*; use super::shims::*;
@@ -301,6 +305,10 @@ impl SendBuffer {
             final(self).acks == old(self).acks,
             res.0.start <= res.0.end <= final(self).offset,
             res.0.end - res.0.start <= max_len,
+            // exact space accounting: offset field, the data, and 8 bytes set aside for a length field when one is to be written all fit
+            // into max_len; a frame without a length field fills max_len exactly (it runs to the end of the packet)
+            (res.0.end - res.0.start) + osize(res.0.start) + (if res.1 { 8int } else { 0int }) <= max_len,
+            !res.1 ==> (res.0.end - res.0.start) + osize(res.0.start) == max_len,
             // either a retransmission: exactly the returned range leaves the retransmit set, new data untouched
             old(self).retransmits.view() != ISet::<u64>::empty() ==> (
                 final(self).unsent == old(self).unsent
